@@ -225,6 +225,6 @@ def guards(acc, tier):
     for name in ('key_index_reused', 'two_live_keys', 'empty_source'):
         if acc.counters.get(name, 0) < 1:
             msgs.append('no execution with %s' % name)
-    if acc.counters.get('boundaries', 0) < 10 * acc.evals / 4:
-        msgs.append('fewer than 2.5 monitored boundaries per execution on average')
+    if acc.counters.get('boundaries', 0) < acc.evals:
+        msgs.append('fewer than one monitored boundary per execution on average')
     return msgs
